@@ -68,6 +68,28 @@ theorem imports_order_and_repetition_irrelevant (mods : List Module) (ps qs : Li
   · rintro ⟨m, a, b, c⟩; exact ⟨m, a, (hsame _).1 b, c⟩
   · rintro ⟨m, a, b, c⟩; exact ⟨m, a, (hsame _).2 b, c⟩
 
+theorem lookup_foldl_register_isSome (items : List Item) (t : Table) (n : String)
+    (h : (lookup t n).isSome) : (lookup (items.foldl register t) n).isSome := by
+  induction items generalizing t with
+  | nil => simpa using h
+  | cons it r ih =>
+    apply ih
+    simp only [register, lookup]
+    split <;> simp_all
+
+/-- **Imports only add.**  A name that resolves before an `import` still resolves after it (possibly to a newer
+    registration), and every module loaded before stays loaded — an import never hides or unloads anything -/
+theorem import_never_hides (mods : List Module) (s s' : St) (p : String) (n : String)
+    (h : importM mods s p = some s') (hn : (lookup s.table n).isSome) :
+    (lookup s'.table n).isSome ∧ (∀ q ∈ s.loaded, q ∈ s'.loaded) ∧ p ∈ s'.loaded := by
+  unfold importM at h
+  split at h
+  · cases h; exact ⟨hn, fun _ hq => hq, by assumption⟩
+  · split at h
+    · cases h
+    · cases h
+      exact ⟨lookup_foldl_register_isSome _ _ _ hn, fun q hq => List.mem_cons_of_mem _ hq, List.mem_cons_self⟩
+
 /-- non-vacuity: two modules, one hidden item, disjoint exports -/
 example :
     let m1 : Module := ⟨"a.b.m1", [⟨"f", true, 1⟩, ⟨"h", false, 2⟩]⟩
